@@ -18,14 +18,16 @@
 (***************************************************************************)
 EXTENDS Naturals, Sequences, FiniteSets, TLC, Json
 
-Exts == {"py", "PY", "Py", "ts", "TS", "tsx", "js", "jsx", "JS", "rs", "RS", "java", "go", "txt", "dat", "none"}
+\* multi-suffix names: only the LAST suffix decides (notes.py.txt is text, types.d.ts is TypeScript)
+Exts == {"py", "PY", "Py", "ts", "TS", "tsx", "js", "jsx", "JS", "rs", "RS", "java", "go", "txt", "dat", "none",
+         "py.txt", "ts.orig", "rs.bak", "js.md", "PY.BAK", "d.ts", "test.py", "min.js"}
 \* python / pythonAbs: `#!/usr/bin/env python3`, `#!/usr/bin/python3 -u`;  bash: `#!/bin/bash`;
 \* shNote: `#!/bin/sh` followed by a comment line that mentions python (only the shebang LINE decides)
 Shebangs == {"no", "python", "pythonAbs", "bash", "shNote"}
 PythonShebangs == {"python", "pythonAbs"}
 Contents == {"python", "typescript", "rust", "neutral"}
 
-Lower(e) == CASE e \in {"py", "PY", "Py"} -> "py" [] e \in {"ts", "TS"} -> "ts" [] e \in {"js", "JS"} -> "js"
+Lower(e) == CASE e \in {"py", "PY", "Py", "test.py"} -> "py" [] e \in {"ts", "TS", "d.ts"} -> "ts" [] e \in {"js", "JS", "min.js"} -> "js"
               [] e \in {"rs", "RS"} -> "rs" [] OTHER -> e
 ExtLang(e) == CASE Lower(e) = "py" -> "python" [] Lower(e) \in {"ts", "tsx"} -> "typescript"
                 [] Lower(e) \in {"js", "jsx"} -> "javascript" [] Lower(e) = "rs" -> "rust"
